@@ -32,6 +32,13 @@ def gen_facts(tier):
             F.append(factmod.Fact("scaled/%s/e%d/exponent" % (R.short, e), "cnl::_impl::tag_of_t<decltype(cnl::sqrt(std::declval<%s>()))>::exponent" % T, e // 2))
             F.append(factmod.Fact("scaled/%s/e%d/rep-digits" % (R.short, e), "cnl::digits_v<cnl::_impl::rep_of_t<decltype(cnl::sqrt(std::declval<%s>()))>>" % T, None,
                                   judge=lambda v, R=R: None if v >= (R.digits + 1) // 2 else "result rep has %d digits, the root of a %d-digit value needs %d" % (v, R.digits, (R.digits + 1) // 2)))
+    # the result keeps the operand's radix: r * Radix^(E/2) is the root only in the same radix (seeded change M-C19-4)
+    for radix in (2, 3, 10):
+        for R in (I32, I64):
+            for e in (-6, -2, 0, 2, 4):
+                T = "scaled_integer<%s, power<%d, %d>>" % (R.name, e, radix)
+                F.append(factmod.Fact("scaled/%s/r%d/e%d/radix" % (R.short, radix, e), "cnl::_impl::tag_of_t<decltype(cnl::sqrt(std::declval<%s>()))>::radix" % T, radix))
+                F.append(factmod.Fact("scaled/%s/r%d/e%d/exponent" % (R.short, radix, e), "cnl::_impl::tag_of_t<decltype(cnl::sqrt(std::declval<%s>()))>::exponent" % T, e // 2))
     return F
 
 
